@@ -70,6 +70,26 @@ Section Own.
 
   Definition is_released (st : ostate) (u : nat) : bool := existsb (Nat.eqb u) (o_released st).
 
+  (* ownership histories: objects are created (holding strong references to live nodes) and dropped *)
+  Inductive oop := OpPut (s : nat) (owned : list nat) | OpDrop (s : nat).
+  Definition ostep (st : ostate) (o : oop) : ostate :=
+    match o with
+    | OpPut s owned => fst (put_slot st s owned)
+    | OpDrop s => fst (drop_slot st s)
+    end.
+  (* a strong reference can only be obtained to a node that has not been released (Weak::upgrade fails otherwise) *)
+  Definition legal (st : ostate) (o : oop) : Prop :=
+    match o with
+    | OpPut _ owned => Forall (fun u => is_released st u = false) owned
+    | OpDrop _ => True
+    end.
+  Fixpoint orun (st : ostate) (ops : list oop) : ostate :=
+    match ops with [] => st | o :: r => orun (ostep st o) r end.
+  Fixpoint legal_run (st : ostate) (ops : list oop) : Prop :=
+    match ops with [] => True | o :: r => legal st o /\ legal_run (ostep st o) r end.
+  Fixpoint put_ids (ops : list oop) : list nat :=
+    match ops with [] => [] | OpPut _ owned :: r => owned ++ put_ids r | OpDrop _ :: r => put_ids r end.
+
   (* a node whose adjacency mentions a released node cannot be iterated / searched: upgrade() fails *)
   Definition dangling (st : ostate) (l : list (nat * E)) : bool :=
     existsb (fun p => is_released st (fst p)) l.
